@@ -485,7 +485,7 @@ func torrentDir(w io.Writer, hash hash.Hash, pth path.Path, lastdir path.Path) {
 
 func torrentEntry(ctx context.Context, w http.ResponseWriter, t *tor.Torrent, dir path.Path) error {
 	hash := t.Hash
-	name := t.Name
+	name := html.EscapeString(t.Name)
 	if !t.InfoComplete() {
 		if name != "" {
 			name = name + " "
